@@ -451,6 +451,43 @@ func GenBackrefFamily(t *rapid.T) (*RuleSet, func(t *rapid.T) string) {
 		rs.States[1].Rules[1].Pattern = open
 		parts = []string{`\E`, `a\E`, `\Q`, `.`, `\E.\Q`, "a", "+", "(", `\`, "a*", `\d`}
 	}
+	if rapid.IntRange(0, 3).Draw(t, "brtwoopen") == 0 {
+		// two openers that cut the same text differently (<abc> = a|bc from Root, ab|c when nested) and lead to the same
+		// closer rule: the whole match and the concatenation of the groups agree, only the cut differs (C09-r12m2)
+		rs.States[0].Rules[0].Pattern = `<(\w)(\w+)>`
+		rs.States[1].Rules[1].Pattern = `<(\w+)(\w)>`
+		words := []string{"ab", "abc", "bc", "xy", "xyz", "abcd"}
+		plainSep := strings.ReplaceAll(sep, "\\", "")
+		closeFor := func(w string, rootCut bool) string {
+			c1, c2 := w[:1], w[1:]
+			if !rootCut {
+				c1, c2 = w[:len(w)-1], w[len(w)-1:]
+			}
+			if strings.HasPrefix(closer, `\2`) {
+				return c2 + plainSep + c1
+			}
+			return c1 + plainSep + c2
+		}
+		return rs, func(t *rapid.T) string {
+			var sb strings.Builder
+			for i, n := 0, rapid.IntRange(1, 3).Draw(t, "brn"); i < n; i++ {
+				w := rapid.SampledFrom(words).Draw(t, "w")
+				sb.WriteString("<" + w + ">" + rapid.SampledFrom([]string{"", "q", " "}).Draw(t, "brbody"))
+				if rapid.Bool().Draw(t, "nested") {
+					w2 := w
+					if rapid.IntRange(0, 2).Draw(t, "otherword") == 0 {
+						w2 = rapid.SampledFrom(words).Draw(t, "w2")
+					}
+					sb.WriteString("<" + w2 + ">" + rapid.SampledFrom([]string{"", "q", " "}).Draw(t, "brbody2"))
+					// usually the closer of the nested cut, sometimes the one of the other cut
+					sb.WriteString(closeFor(w2, rapid.IntRange(0, 3).Draw(t, "wrongcut2") == 0) + " ")
+				}
+				sb.WriteString(closeFor(w, rapid.IntRange(0, 3).Draw(t, "wrongcut") != 0))
+				sb.WriteString(rapid.SampledFrom([]string{" ", "", " w "}).Draw(t, "brtail"))
+			}
+			return sb.String()
+		}
+	}
 	input := func(t *rapid.T) string {
 		var sb strings.Builder
 		n := rapid.IntRange(1, 4).Draw(t, "brn")
